@@ -417,7 +417,8 @@ def gen_type(rng, depth=0, odict=False, classes=True):
     if depth >= 3 or r < 0.22:
         return rng.choice(LEAVES)
     if classes and depth <= 1 and r < 0.34:
-        return rng.choice(["Base", "Base", "Holder", ["List", "Base"], ["Dict", "Base"], ["Optional", "Base"], ["Tuple", "Base", "int"]])
+        return rng.choice(["Base", "Base", "Holder", ["List", "Base"], ["Dict", "Base"], ["Optional", "Base"], ["Tuple", "Base", "int"],
+                           ["Dict", "Holder"], ["List", "Holder"], ["Optional", "Holder"]])
     if r < 0.40 and depth <= 1:
         return "Any"
     if odict and r < 0.50:
@@ -1218,6 +1219,20 @@ def user_objects(x, acc=None, seen=None, depth=0):
     return acc
 
 
+def live_signature_defaults():
+    """the live objects that are signature defaults of the temp module's classes (lazy_instance(...)): they must never be
+    part of an instantiated configuration — a spec derived from them has to be instantiated afresh"""
+    import inspect
+
+    m = usermod()
+    out = []
+    for cls in (m.Base, m.Sub, m.Other, m.Boom, m.Holder):
+        for prm in inspect.signature(cls.__init__).parameters.values():
+            if isinstance(prm.default, (m.Base, m.Holder)):
+                out.append(prm.default)
+    return out
+
+
 def count_specs(x):
     """class_path specs in an accepted configuration (namespaces/dicts with a class_path entry)"""
     from jsonargparse import Namespace
@@ -1444,8 +1459,11 @@ def run_scenario(ctx, batch, sc, origin, only_op=None):
                 nspec = count_specs(arg)
                 ctx.hist("specs", min(nspec, 6))
                 common = {id(x) for x in o1} & {id(x) for x in o2}
+                live = {id(x) for x in live_signature_defaults()}
                 problem = None
-                if common:
+                if live & ({id(x) for x in o1} | {id(x) for x in o2}):
+                    problem = "an instantiated configuration holds the live signature default object (lazy_instance) instead of a new one"
+                elif common:
                     problem = "two instantiations share %d object(s)" % len(common)
                 elif len({id(x) for x in o1}) != nspec or len({id(x) for x in o2}) != nspec:
                     problem = "%d specs but %d / %d distinct objects" % (nspec, len({id(x) for x in o1}), len({id(x) for x in o2}))
@@ -1626,7 +1644,7 @@ def run(ctx: Ctx):
 
     phases["corpus_and_brackets"] = round(ctx.elapsed(), 1)
     # ---- generated scenarios
-    n_sc = ctx.budget(100, 1500) * (2 if boost > 1 else 1)
+    n_sc = ctx.budget(100, 1200) * (2 if boost > 1 else 1)
     for i in range(n_sc):
         if not ctx.thorough and ctx.elapsed() > 60:
             ctx.extra["stopped_early_after_scenarios"] = i
